@@ -95,3 +95,6 @@ func VerifCloneMessage(m *Message) *Message { return m.clone() }
 // VerifIDLast exposes the packet identifier counter.
 func VerifSetIDLast(c *BaseClient, v uint32) { c.idLast = v }
 func VerifNewID(c *BaseClient) uint16       { return c.newID() }
+
+// VerifNewRequestTimeoutError builds the error that requestContext.Err returns (its embedded field is unexported).
+func VerifNewRequestTimeoutError(err error) error { return &RequestTimeoutError{err} }
